@@ -5,6 +5,8 @@ import (
 	"bytes"
 	"fmt"
 	"go/format"
+	"go/parser"
+	gotoken "go/token"
 	"io"
 	"os"
 	"sort"
@@ -81,6 +83,12 @@ func (f *File) Render(w io.Writer) error {
 	if f.NoFormat {
 		output = source.Bytes()
 	} else {
+		// format.Source also accepts declaration and statement lists (and a lone comment): make sure
+		// the source still starts with a package clause, e.g. that an unterminated header comment
+		// has not swallowed it.
+		if _, err := parser.ParseFile(gotoken.NewFileSet(), "", source.Bytes(), parser.PackageClauseOnly); err != nil {
+			return fmt.Errorf("Error %s while formatting source:\n%s", err, source.String())
+		}
 		var err error
 		output, err = format.Source(source.Bytes())
 		if err != nil {
